@@ -572,4 +572,18 @@ theorem sliceElems_safe {α : Type} (elems : List α) (indexes : List Int) (off 
   rw [hr]; simp only; rw [hr2]
   intro h; cases h
 
+/-! ### namerefs -/
+
+theorem resolveLoop_not_nameref (env : Bytes → Var) : ∀ (fuel : Nat) (name : Bytes) (v : Var),
+    (resolveLoop env fuel name v).2.kind ≠ .nameRef := by
+  intro fuel
+  induction fuel with
+  | zero => intro name v h; cases h
+  | succ fuel ih =>
+    intro name v
+    unfold resolveLoop
+    by_cases hk : v.kind ≠ .nameRef
+    · rw [if_pos hk]; exact hk
+    · rw [if_neg hk]; exact ih _ _
+
 end ShVerif.C28
